@@ -5,6 +5,7 @@
 #include "json.hpp"
 #include <unicode/ucnv.h>
 #include <algorithm>
+#include <cstring>
 
 namespace sim {
 
@@ -269,6 +270,7 @@ private:
     void attrValue(Emitter& em) {
         char32_t q = rng.coin() ? U'"' : U'\''; em.put(q);
         int parts = rng.small(3);
+        if (rng.chance(1, 8)) text(em, 300, true, q);       // now and then a value far longer than the fixed-size buffers attribute handling uses (normalisation, validation)
         for (int i = 0; i <= parts; i++) { unsigned r = (unsigned)rng.below(10); if (r < 6) text(em, 8, true, q); else if (r < 8) charRef(em); else entRef(em, true); }
         // '<' is illegal in attribute values: text() never produces it
         em.put(q);
@@ -295,7 +297,7 @@ private:
         // ID / IDREF attributes (declared by declsBlock for some element types): values come from a small pool so that
         // different documents of one history share them; now and then a duplicate ID or a dangling IDREF (validity errors)
         if (opt.idAttrs && hasDoctypeFlag && rng.chance(1, 3) && std::find(used.begin(), used.end(), U"id") == used.end()) { ws(em, true); em.puts("id="); int v = rng.chance(1, 8) ? (int)rng.below(3) : nextId++; quoted(em, "i" + std::to_string(v)); }
-        if (opt.idAttrs && hasDoctypeFlag && rng.chance(1, 4) && std::find(used.begin(), used.end(), U"ref") == used.end()) { ws(em, true); em.puts("ref="); quoted(em, "i" + std::to_string((int)rng.below(rng.chance(1, 6) ? 40 : (unsigned)std::max(1, nextId)))); }
+        if (opt.idAttrs && hasDoctypeFlag && rng.chance(1, 4) && std::find(used.begin(), used.end(), U"ref") == used.end()) { ws(em, true); em.puts("ref="); quoted(em, (rng.chance(1, 8) ? "i" + std::string(100 + rng.below(60), 'z') : std::string("i")) + std::to_string((int)rng.below(rng.chance(1, 6) ? 40 : (unsigned)std::max(1, nextId)))); }      // (now and then an IDREF value of 100+ characters: tokenised attribute types are normalised into a fixed-size buffer up to that length)
         ws(em, false);
         if (empty) { em.puts("/>"); em.end(id); }
         else {
@@ -477,7 +479,12 @@ private:
 inline std::string mutateBytes(Rng& rng, std::string& b) {
     if (b.empty()) return "none";
     static const char* toks[] = { "<", "&", "]]>", "<!--", "--", "\xff", "&#0;", "&#xD800;", "<?xml version='1.0'?>", "\"", "'", ">", "</", "<![CDATA[", "&#x110000;", "\xC0\x80", "\xED\xA0\x80", "%", ";", "<!DOCTYPE x [", "\xEF\xBB\xBF", "\xFE\xFF", "=", " ", "\r" };
-    unsigned r = (unsigned)rng.below(6); size_t pos = rng.below(b.size());
+    unsigned r = (unsigned)rng.below(8); size_t pos = rng.below(b.size());
+    if (r >= 6) {      // structure-aware: drop or exchange one of the punctuation characters that carry the grammar (the '*' behind a mixed content model, a ')' , a quote ...)
+        static const char punct[] = "*)>(|,?+;\"'=[]%#!/"; std::vector<size_t> at; for (size_t i = 0; i < b.size(); i++) if (strchr(punct, b[i]) && b[i]) at.push_back(i);
+        if (r == 6 && rng.chance(1, 3)) { std::vector<size_t> star; for (size_t i = 0; i + 1 < b.size(); i++) if (b[i] == ')' && b[i + 1] == '*') star.push_back(i + 1); if (!star.empty()) { b.erase(star[rng.below(star.size())], 1); return "drop-content-model-star"; } }
+        if (!at.empty()) { size_t p = at[rng.below(at.size())]; if (r == 6) { b.erase(p, 1); return "drop-punctuation"; } b[p] = punct[rng.below(sizeof punct - 1)]; return "swap-punctuation"; }
+        r = 0; }
     switch (r) {
     case 0: { size_t n = 1 + rng.below(std::min<size_t>(8, b.size() - pos)); b.erase(pos, n); return "delete"; }
     case 1: { size_t n = 1 + rng.below(std::min<size_t>(12, b.size() - pos)); b.insert(pos, b.substr(pos, n)); return "duplicate"; }
